@@ -8,6 +8,9 @@
 (*   obs.onNode / obs.matchable / obs.allocated : node -> uids (indexes)    *)
 (* After EVERY operation the observation must satisfy (L) (X1) (X2); the    *)
 (* answers of fit / match / nominate must satisfy (F) (M) (O).              *)
+(* C19 (harness zz_verif_c19_test.go, TestVerifC19Reservation) adds the     *)
+(* event `restart`: obs is then the projection of a FRESH cache rebuilt     *)
+(* from the persisted objects only (TRestart).                              *)
 EXTENDS Reservation, TraceCommon
 
 ObsDims == {"cpu", "memory", "pods"}
